@@ -611,7 +611,83 @@ func runC03(p *core.Prog, r *core.Report) {
 								}
 							}
 						})
+						// …or cut back to the length it had when it was obtained (`base := len(*p)` right after the getter,
+						// `*p = (*p)[:base]` before each attribute; base may reach a closure as a captured variable)
+						var isBaseLen func(v ssa.Value, d int) bool
+						isBaseLen = func(v ssa.Value, d int) bool {
+							if d > 4 || v == nil {
+								return false
+							}
+							switch x := v.(type) {
+							case *ssa.Call:
+								if !isBuiltin(x, "len") {
+									return false
+								}
+								ld, ok := x.Call.Args[0].(*ssa.UnOp)
+								if !ok || ld.Op != token.MUL {
+									return false
+								}
+								src := sx.Unspill(ld.X)
+								if ta, isTA := src.(*ssa.TypeAssert); isTA {
+									src = ta.X
+								}
+								if src != ssa.Value(g) {
+									return false
+								}
+								// recorded before anything was written through the buffer: no emitter call reaches it
+								return x.Parent() != g.Parent() || !sx.ReachInstr(g.Parent(), g, x, sx.Cut{Instrs: map[ssa.Instruction]bool{}}) || !emitterBetween(p, g, x)
+							case *ssa.UnOp:
+								if x.Op != token.MUL {
+									return false
+								}
+								switch c := x.X.(type) {
+								case *ssa.FreeVar:
+									if b := sx.FreeVarBinding(c); b != nil {
+										if al, isA := sx.Unspill(b).(*ssa.Alloc); isA {
+											st, _ := sx.CellStores(al)
+											return len(st) == 1 && isBaseLen(st[0], d+1)
+										}
+										return isBaseLen(b, d+1)
+									}
+								case *ssa.Alloc:
+									st, _ := sx.CellStores(c)
+									return len(st) == 1 && isBaseLen(st[0], d+1)
+								}
+							case *ssa.FreeVar:
+								if b := sx.FreeVarBinding(x); b != nil {
+									return isBaseLen(b, d+1)
+								}
+							}
+							return false
+						}
+						sx.Instrs(f, func(i2 ssa.Instruction) {
+							st, ok := i2.(*ssa.Store)
+							if !ok || sx.Unspill(st.Addr) != ptr {
+								return
+							}
+							sl, ok := st.Val.(*ssa.Slice)
+							if !ok || sl.Low != nil || sl.High == nil {
+								return
+							}
+							if ld, ok := sl.X.(*ssa.UnOp); !ok || sx.Unspill(ld.X) != ptr {
+								return
+							}
+							if isBaseLen(sl.High, 0) {
+								cut.Instrs[i2] = true
+							}
+						})
 						fresh := g.Parent() == f && !sx.ReachInstr(f, e, e, cut)
+						if g.Parent() != f {
+							// the buffer belongs to the enclosing function and this closure runs once per attribute: it must rewind
+							// the buffer itself before the emitter call
+							rew := sx.Cut{Instrs: map[ssa.Instruction]bool{}}
+							for i2 := range cut.Instrs {
+								if i2 != ssa.Instruction(g) {
+									rew.Instrs[i2] = true
+								}
+							}
+							fresh = len(rew.Instrs) > 0 && sx.MustPass(f, nil, e, rew)
+						}
 						r.Check(fresh, "C03-R4", fmt.Sprintf("%s: scratch buffer from %s is fresh for every attribute in %s", h.Name, gname, fnName(f)), p.Pos(e.Pos()), "obtained anew (or rewound) before each emitter call", "the scratch buffer obtained once at "+p.Pos(g.Pos())+" is reused for several attributes: the emitter leaves the previous attribute's key in it, so the second and later With attributes nest under their predecessor")
 					}
 				})
@@ -916,4 +992,19 @@ func stripIface(v ssa.Value) ssa.Value {
 		return mi.X
 	}
 	return v
+}
+
+// emitterBetween: an attribute emitter call lies on some path between the getter g and the instruction x (same function).
+func emitterBetween(p *core.Prog, g *ssa.Call, x ssa.Instruction) bool {
+	found := false
+	sx.Instrs(g.Parent(), func(in ssa.Instruction) {
+		c, ok := in.(*ssa.Call)
+		if !ok || !isEmitterCall(p, c) {
+			return
+		}
+		if sx.ReachInstr(g.Parent(), g, c, sx.Cut{}) && sx.ReachInstr(g.Parent(), c, x, sx.Cut{Instrs: map[ssa.Instruction]bool{g: true}}) {
+			found = true
+		}
+	})
+	return found
 }
